@@ -94,6 +94,28 @@ def run_anymod_bounded(tier, seed):
     return out
 
 
+def run_tables_enum(tier, seed):
+    """C13: the two lazy_static tables against the US-QWERTY layout, complete over all scalar values / all rows (real tables through the harness)"""
+    import witness
+    out = dict(name='tables_enum', kind='enumerative', counts_as_proof=False)
+    try:
+        exe = witness.build()
+    except Exception as e:
+        out['undecided'] = 'harness build failed: %s' % str(e)[-300:]; return out
+    t0 = time.time()
+    p = subprocess.run([exe, 'tables'], stdout=subprocess.PIPE, stderr=subprocess.PIPE, timeout=600)
+    try:
+        d = json.loads(p.stdout.decode().strip().split('\n')[-1])
+    except Exception as e:
+        out['undecided'] = 'probe output unreadable: %s %s' % (e, p.stderr.decode()[-300:]); return out
+    out.update(exhaustive=True, evaluations=d['cases'], distinct_nontrivial=d['table_entries'] + 5, sample="'A' -> (shift, A); row Q -> [Q, W, E, R, T, Y, U, I, O, P, LEFTBRACE, RIGHTBRACE]", wall_s=round(time.time() - t0, 2),
+               explanation='CHAR_ACCESS_MAP.get(c) compared with an independently written US-QWERTY legend table for every Unicode scalar value (%d lookups; %d characters have an entry, space has none) and US_KEYBOARD_LAYOUT.get(row) for all five rows; complete over both domains. This backs the uninterpreted table functions cam_entry / ukl_row of the contracts (E5); it is enumerative, not counted as proof' % (d['cases'] - 5, d['table_entries']),
+               bound='none: all 1,112,064 scalar values and all 5 rows')
+    out['violations'] = len(d['failures'])
+    out['violation_list'] = [dict(input=f['input'], what=f['what']) for f in d['failures'][:1]]
+    return out
+
+
 def run_c18_native(tier, seed):
     """exhaustive native enumeration through a real pipe (harness crate, real dev_input_rw.rs / struct_ser.rs / key_codes.rs)"""
     import witness
